@@ -79,6 +79,13 @@ def explore(res, rng, n):
         beta = rng.choice([1.0, 2.0, 3.0])
         ks = [rng.choice([0.0, 0.1, 0.3, -0.15 / beta, 0.5]) for _ in range(d - 1)]
         Q = rotation(rng, d)
+        if rng.random() < 0.35:
+            # axes merely re-ordered / mirrored: the design point lies exactly on a coordinate axis
+            perm = list(range(d)); rng.shuffle(perm)
+            Q = np.zeros((d, d))
+            for a_, b_ in enumerate(perm):
+                Q[a_, b_] = rng.choice([1.0, -1.0])
+            res.stat('paraboloid_axes_permuted')
         def g(u, Q=Q, ks=ks, beta=beta):
             v = Q.T @ np.asarray(u, dtype=float)
             return float(beta - v[-1] + 0.5 * sum(k * vi * vi for k, vi in zip(ks, v[:-1])))
